@@ -60,6 +60,17 @@ class Transport:
             raise PayloadExceededError("%d > %d" % (len(payload), self.max_size))
         self.sent.append(msg)
         self.rec.on_send(msg)
+        if self.sync_next:
+            # a side-by-side / in-process router: the reply arrives while send() has not returned yet
+            self.sync_next = False
+            rep = self.rec.sync_reply_for(msg)
+            if rep is not None:
+                reply, m = rep
+                self.rec.sync_m = m
+                wire = WIRES[0]
+                self.rec.sess.onMessage(wire.unserialize(wire.serialize(reply)[0])[0])
+
+    sync_next = False
 
     def isOpen(self):
         return not self.closed
@@ -132,6 +143,7 @@ class Recorder:
         self.requests = {}        # rid -> dict(kind, future, expect...)
         self.nrx = 0
         self.reent = None         # re-entrant unsubscribe planned for the event being dispatched
+        self.sync_m = None        # the reply the transport delivered from inside send() during the current API call
         self.futs = {}            # rid -> the future / Deferred returned by the API call
         self.cancelled = set()    # call request ids whose result the caller cancelled while pending
         self.handlers = {}        # hid -> fn
@@ -145,6 +157,26 @@ class Recorder:
 
     def new_re(self):
         self.re = dict(out=[], cbs=[], evs=[], done=[], hcalls=[], ecalls=[], prog=[], closes=0, exc="", retry=[])
+
+    def sync_reply_for(self, msg):
+        k = msg.__class__.__name__
+        rid = getattr(msg, "request", None)
+        if k == "Call":
+            return message.Result(rid, args=[1]), dict(t="result", req=rid, progress=False)
+        if k == "Publish" and msg.acknowledge:
+            return message.Published(rid, 777), dict(t="published", req=rid)
+        if k == "Subscribe":
+            return message.Subscribed(rid, 12), dict(t="subscribed", req=rid, sub=12, unsub=False)
+        if k == "Unsubscribe":
+            return message.Unsubscribed(rid), dict(t="unsubscribed", req=rid)
+        if k == "Register":
+            reg = 23
+            while reg in self.sess._registrations:        # a router never hands out a registration id twice
+                reg += 1
+            return message.Registered(rid, reg), dict(t="registered", req=rid, reg=reg)
+        if k == "Unregister":
+            return message.Unregistered(rid), dict(t="unregistered", req=rid)
+        return None
 
     def cb(self, name):
         self.re["cbs"].append(name)
@@ -318,7 +350,7 @@ class Recorder:
                     before = self.last_req()
                     fut = target.unsubscribe()
                     rid = self.last_req()
-                    if rid != before and rid in s._unsubscribe_reqs:
+                    if rid != before:          # an UNSUBSCRIBE went out (it may already have been answered from inside send())
                         self.requests[rid] = dict(kind="unsubscribe")
                         self.track(fut, rid)
                     else:
@@ -469,10 +501,16 @@ def scenario(rng, profile):
     def api(name, fn, **kw):
         if name in ("call", "publish"):
             kw.setdefault("bad", "")
+        R.sync_m = None
+        R.tr.sync_next = (profile in ("c04", "c06") and name in ("call", "publish", "subscribe", "unsubscribe", "register", "unregister")
+                          and s._session_id is not None and rng.random() < 0.12)
         try:
             fn()
         except Exception as e:  # noqa
             R.re["exc"] = type(e).__name__
+        R.tr.sync_next = False
+        kw["sync"] = R.sync_m or {"t": "none"}
+        R.sync_m = None
         R.step(dict(ev="api", name=name, **kw))
 
     def pending_ids(kind):
@@ -580,7 +618,7 @@ def scenario(rng, profile):
                             R.bad("faithful", "unsubscribe() in the subscribe continuation raised %s" % type(e).__name__)
                             return sub
                         r2 = R.last_req()
-                        if r2 != before and r2 in s._unsubscribe_reqs:
+                        if r2 != before:
                             R.requests[r2] = dict(kind="unsubscribe")
                             R.track(f2, r2)
                         else:
@@ -618,7 +656,7 @@ def scenario(rng, profile):
                 before = R.last_req()
                 fut = sub.unsubscribe()
                 rid = R.last_req()
-                if rid != before and rid in s._unsubscribe_reqs:
+                if rid != before:          # an UNSUBSCRIBE went out (it may already have been answered from inside send())
                     R.requests[rid] = dict(kind="unsubscribe")
                     R.track(fut, rid)
                 else:
@@ -859,7 +897,7 @@ def scenario(rng, profile):
             R.requests[rid] = dict(kind="subscribe", hid=want_hs[i] if i < 3 else 3)
             if i < len(futs):
                 R.track(futs[i], rid)
-        R.step(dict(ev="api", name="subscribe_obj", hs=want_hs))
+        R.step(dict(ev="api", name="subscribe_obj", hs=want_hs, sync={"t": "none"}))
         if len(rids) == 3:
             for i, rid in enumerate(rids):
                 rx(message.Subscribed(rid, 11 + i), dict(t="subscribed", req=rid, sub=11 + i, unsub=False))
